@@ -177,6 +177,7 @@ def solve(st, assumptions, bad, timeout_s=60, seed=0, want_model=True, label='',
                 st.unsat += 1
                 if len(st.samples) < 3 and label: st.samples.append({'query': label, 'stage': variant[1], 'result': 'unsat', 's': round(dt, 3)})
                 if dump: _dump(sol, dump)
+                if CVC5_SAMPLE and st.cvc5_checked < CVC5_SAMPLE: _cvc5_cross(st, sol, label)
                 return 'unsat', None
     if 2 not in stages:
         st.unknown += 1
@@ -193,6 +194,28 @@ def solve(st, assumptions, bad, timeout_s=60, seed=0, want_model=True, label='',
         return 'sat', m
     st.unknown += 1
     return 'unknown', None
+
+
+CVC5_SAMPLE = 2 if os.environ.get('VERIF_TIER') == 'thorough' or '--tier thorough' in ' '.join(__import__('sys').argv) else 0
+
+
+def _cvc5_cross(st, sol, label):
+    """independent solver on the same (UF-abstracted, linear) query; a disagreement is recorded and makes the family undecided"""
+    import subprocess, tempfile
+    try:
+        with tempfile.NamedTemporaryFile('w', suffix='.smt2', delete=False) as f:
+            f.write('(set-logic ALL)\n' + sol.to_smt2())
+            path = f.name
+        t0 = time.time()
+        p = subprocess.run(['cvc5', '--lang', 'smt2', '--tlimit=20000', path], capture_output=True, text=True, timeout=40)
+        st.cvc5_s += time.time() - t0
+        out = p.stdout.strip().split('\n')[0] if p.stdout.strip() else ''
+        os.unlink(path)
+        if out == 'unsat': st.cvc5_checked += 1
+        elif out == 'sat':
+            st.cvc5_checked += 1; st.cvc5_disagree += 1
+    except Exception:
+        pass
 
 
 def _dump(sol, path):
